@@ -40,6 +40,7 @@ def finish(prop, mod, recs, tier, seed, t0, replay_fn, verbose=False, bounded=No
     trusted = set()
     probes = canaries = 0
     dropped = {}
+    renamed = {}
     sources = {}
     for rec in recs:
         if rec.get("status") == "crash":
@@ -49,6 +50,7 @@ def finish(prop, mod, recs, tier, seed, t0, replay_fn, verbose=False, bounded=No
             undecided.append((rec["case"], "unsupported: " + str(rec.get("error"))))
         trusted.update(rec.get("trusted", []))
         dropped.update(rec.get("dropped", {}))
+        renamed.update(rec.get("renamed_identifiers", {}))
         sources.update(rec.get("sources", {}))
         fn = functions.setdefault(rec["target"], {"variants": [], "obligations": 0, "proved": 0,
                                                   "paths": 0, "level": rec.get("level", "proof")})
@@ -216,6 +218,7 @@ def finish(prop, mod, recs, tier, seed, t0, replay_fn, verbose=False, bounded=No
         "out_of_reach": list(getattr(mod, "OUT_OF_REACH", [])),
         "source_sha256": sources,
         "cython_constructs_dropped": dropped,
+        "identifiers_renamed_since_pinned_tree": renamed,
         "samples": samples or [{"note": "no proved obligation sampled"}],
         "paths_explored": sum(r.get("paths", 0) for r in recs),
         "explanation": getattr(mod, "EXPLANATION", ""),
